@@ -1,4 +1,5 @@
 import ThruVerif.Model.SendFile
+import ThruVerif.Gen.Shapes
 import ThruVerif.Model.Sched
 /-!
 # C17 — Each needed chunk and each file is dispatched exactly once, then one FileEnd
@@ -348,5 +349,17 @@ theorem C17_files_progress (cfg : Cfg) (fs : List F) (pick : Nat) (hc : 1 ≤ cf
 -- non-vacuity
 example : Inv (init 5) := inv_init 5
 example : canEnd (final (init 1) [.take, .finish]) = false ∧ ends (run (init 1) [.take, .finish]) = 1 := by decide
+
+/-! ## the decision structure of the source, as regenerated on this run (xlate, `Gen/Shapes.lean`) -/
+
+open TV.Gen.Shapes in
+/-- every `if` condition of `nextChunkToSend`, `markChunkDone` and `trySendEnd`, in source order (enclosing conditions first):
+the text `Model/SendFile` was transcribed from -/
+theorem C17_source_shapes :
+    sendfile_next_chunk = ["s.scheduleDone", "s.scheduleDone ; s.resendPending", "s.resendPending",
+      "s.plan != nil && s.plan.bitmap != nil && s.plan.bitmap.Get(int(idx)) && idx < s.plan.forceSendFrom",
+      "s.nextChunk >= s.totalChunks"] ∧
+    sendfile_mark_done = ["s.inFlight > 0", "s.verifyPending || s.resendPending", "s.scheduleDone && s.inFlight == 0 && !s.endSent"] ∧
+    sendfile_try_end = ["s.verifyPending || s.resendPending", "s.scheduleDone && s.inFlight == 0 && !s.endSent"] := by decide
 
 end TV.C17
